@@ -62,9 +62,6 @@ func ruleQueryEdits(c *Ctx) {
 			}
 		}
 	}
-	if adds == 0 {
-		bad = append(bad, "no url.Values.Add: configured parameters are not added")
-	}
 	if !wroteBack {
 		bad = append(bad, "the edited query is not written back to the request (RawQuery)")
 	}
@@ -72,6 +69,17 @@ func ruleQueryEdits(c *Ctx) {
 	src := false
 	c.P.Simulate(fn, SimConfig{MaxVisits: 2}, func(pr *PathResult) {
 		for _, e := range pr.Events {
+			// calls made through a method value (query.Add handed to a helper) show up here only
+			if e.Kind == "call" && e.Callee != nil && strings.HasPrefix(e.Callee.String(), "(net/url.Values).") {
+				if _, direct := e.Instr.(ssa.CallInstruction); !direct || e.Instr.(ssa.CallInstruction).Common().StaticCallee() != e.Callee {
+					switch e.Callee.Name() {
+					case "Add":
+						adds++
+					case "Set", "Del":
+						bad = append(bad, "url.Values."+e.Callee.Name()+" (through a method value) drops the client's own values of that parameter")
+					}
+				}
+			}
 			if e.Kind == "call" && e.Callee != nil && e.Callee.String() == "(net/url.Values).Add" {
 				for _, a := range e.Args[1:] {
 					if a.contains(func(x *Term) bool { return (x.Op == "fa" || x.Op == "fld") && x.Name == "Query" }) {
@@ -81,6 +89,9 @@ func ruleQueryEdits(c *Ctx) {
 			}
 		}
 	})
+	if adds == 0 {
+		bad = append(bad, "no url.Values.Add: configured parameters are not added")
+	}
 	if adds > 0 && !src {
 		bad = append(bad, "the values added do not come from the location's configured Query")
 	}
